@@ -16,6 +16,7 @@ EXPLANATION = (
     'body eagerly and unconditionally; D4 parallel_scan applies the final pass exactly once per leaf and never both tags to one '
     'leaf; D5 parallel_sort touches elements only through the comparator, std::iter_swap and std::sort (a permutation).  '
     'Equality with the sequential fold, bit-identical floating point, sortedness and scan prefix values are NOT decided.')
+EXPLANATION += ' Added after the seeded-change rounds: ' + 'D4 also: a right child of parallel_scan gets a body of its own depending on the steal status AND on the identity parent->left_sum == own body; D6: every public overload of parallel_reduce / parallel_deterministic_reduce / parallel_scan / parallel_sort dispatches to the same task class as its siblings and passes every argument on.'
 ASSUMPTIONS = ['clang and g++ agree on overload resolution for the witness programs', 'std::iter_swap / std::sort permute']
 ND = ['equality with the sequential fold', 'bit-identical floating-point results', 'sortedness of the output',
       'pre-sortedness probe pair coverage', 'scan prefix values']
